@@ -63,6 +63,14 @@ func configs() []config {
 		out = append(out, config{Name: fmt.Sprintf("3cids,workers=%d,queue=1", cp), ConcurrentPins: cp, Queue: 1,
 			Cids: []string{"a", "b", "c"}, Kinds: []kind{kLR, kUN, kRC, kRA}, Passes: three})
 	}
+	// the real connector between tracker and daemon (its translation of
+	// Pin/Unpin/PinLs into daemon requests is then part of the loop)
+	rc := []pass{{3, unbounded}}
+	if ev.Thorough() {
+		rc = []pass{{4, unbounded}}
+	}
+	out = append(out, config{Name: "real-connector,workers=1,queue=big", ConcurrentPins: 1, Queue: bigQueue,
+		Cids: []string{"a", "b"}, Kinds: allKinds, Passes: rc, RealConn: true})
 	return out
 }
 
